@@ -50,6 +50,58 @@ def run(ctx):
         og = ctx.og(fn)
         # fetch_max calls on other counters (the keyspace id counter) are not the seqno restore
         fm = [b for b, t in fn.calls() if A.cname(t) == FETCH_MAX and not any(x.k == "field" and x.a[1] == "keyspace_id_counter" for x in A.walk(og.of_operand(t["args"][0])))]
+        # (a) the journal's own sequence numbers: every replayed batch raises the generator above its seqno — a clear record or a
+        # record of a deleted keyspace leaves nothing in any tree, yet its number is "present in a journal"
+        jfm = []
+        for b_ in fm:
+            v_ = og.of_operand(fn.term(b_)["args"][1])
+            while v_.k == "field" and v_.a[1] == "0":
+                v_ = v_.a[0]
+            if v_.k == "bin" and v_.a[0].startswith("Add") and v_.a[2].k == "const" and v_.a[2].a == ("int", 1) and any(x.k == "field" and x.a[1] == "seqno" for x in A.walk(v_.a[1])) \
+                    and any(x.k == "call" and "JournalBatchReader" in x.a[0] for x in A.walk(v_.a[1])):
+                jfm.append(b_)
+        fm = [b_ for b_ in fm if b_ not in jfm]
+        # (b) the meta keyspace's tree: written with numbers of the same generator (name <-> id rows, option rows, tombstones
+        # of deleted keyspaces); its restore is the fetch_max outside every loop whose argument is get_highest_seqno of the
+        # tree that is handed to MetaKeyspace::new
+        if fid == "db::Database::recover":
+            mfm = [b_ for b_ in fm if not A.in_cycle(fn, b_)]
+            fm = [b_ for b_ in fm if b_ not in mfm]
+            okm = False
+            detailm = "Database::recover never raises the generator above the meta keyspace's sequence numbers"
+            mk = [tt for bb, tt in fn.calls() if A.cname(tt) == "meta_keyspace::MetaKeyspace::new"]
+            sup_seq = None
+            for blk in fn.blocks:
+                for st in blk["s"]:
+                    rv = st["rv"]
+                    if rv["k"] == "agg" and rv.get("adt") == "supervisor::SupervisorInner":
+                        sup_seq = og.of_operand(dict(zip(rv["fields"], rv["ops"]))["seqno"])
+            for b_ in mfm:
+                t_ = fn.term(b_)
+                recv_ = og.of_operand(t_["args"][0])
+                ok1_, src_ = plus_one_closure(F, fn, og.of_operand(t_["args"][1]))
+                tree_ = og.of_operand(mk[0]["args"][0]) if mk else None
+                same_tree = src_ is not None and tree_ is not None and any(x.k == "call" and x.a[0].endswith("Config::open") for x in A.walk(src_)) and \
+                    {x.site for x in A.walk(src_) if x.k == "call" and x.a[0].endswith("Config::open")} & {x.site for x in A.walk(tree_) if x.k == "call" and x.a[0].endswith("Config::open")}
+                same_gen = sup_seq is not None and A.tkey(recv_) == A.tkey(sup_seq)
+                # before the database is handed out and before anything is created in it
+                early = bool(mk) and any(A.dominates(fn, b_, bb) for bb, tt in fn.calls() if A.cname(tt) == "recovery::recover_keyspaces")
+                if ok1_ and same_tree and same_gen and early:
+                    okm = True
+                    detailm = "generator.fetch_max(meta_tree.get_highest_seqno() + 1) right after the meta tree is opened"
+            ctx.ob(rule, fn, "meta-keyspace-seqnos-restored", okm,
+                   detailm if okm else detailm + ": after a reopen, rows written to the meta keyspace (a newly created keyspace reusing a deleted keyspace's id) get lower sequence numbers than the old tombstones of the same keys — the new keyspace vanishes, with its data, once the meta tree compacts")
+        breader = [bb for bb, tt in fn.calls() if A.cname(tt).endswith("::next") and "JournalBatchReader" in A.cname(tt) and A.in_cycle(fn, bb)]
+        okj = False
+        detailj = "no `seqno.fetch_max(batch.seqno + 1)` in the replay loop of %s" % fid
+        if jfm and breader:
+            recvj = og.of_operand(fn.term(jfm[0])["args"][0])
+            # executed for every batch: in the batch loop, before (dominating) every per-record step of that batch
+            inner = [bb for bb, tt in fn.calls() if A.cname(tt) == "meta_keyspace::MetaKeyspace::resolve_id" and A.in_cycle(fn, bb)] + [bb for bb in R.apply_blocks(fn) if A.in_cycle(fn, bb)]
+            okj = A.ends_with_field(recvj, "supervisor", "seqno") and A.in_cycle(fn, jfm[0]) and bool(inner) and all(A.dominates(fn, jfm[0], x) for x in inner)
+            detailj = "every replayed batch raises the generator above its own seqno, before any of its records is looked at" if okj else "the journal-seqno restore does not run for every replayed batch / is not on the database generator"
+        ctx.ob(rule, fn, "journal-seqnos-restored", okj,
+               detailj if okj else detailj + ": sequence numbers present in a journal (a clear record, records of a deleted keyspace) can be handed out again after the reopen")
         if not fm:
             ctx.ob(rule, fn, "restores-seqno", False, "no seqno.fetch_max in %s: sequence numbers handed out after reopen could be below recovered ones" % fid)
             continue
@@ -146,3 +198,8 @@ def run(ctx):
                     a, b = og.of_operand(d["seqno_generator"]), og.of_operand(d["visible_seqno"])
                     ok = a.k == "param" and a.a[0] == 3 and b.k == "param" and b.a[0] == 4
         ctx.ob("R-C11.4", mn, "stores-the-given-counters", ok, "MetaKeyspace keeps (generator, visible) in that order" if ok else "MetaKeyspace::new swaps or replaces the counters it is given")
+
+
+    # ---- R-C11.5 every tree draws its own numbers (versions, bulk-ingested tables) from the database generator (shared with C06)
+    from . import C06
+    C06.shared_counters(ctx, "R-C11.5")
